@@ -2,7 +2,7 @@ import vlib
 
 class P(vlib.Prop):
     id = "C04"
-    watch = ("pkg/apk/apk/index.go", "pkg/apk/apk/apkindex.go", "pkg/apk/signature/rsa.go")
+    watch = ("pkg/apk/apk/index.go", "pkg/apk/apk/apkindex.go", "pkg/apk/signature/rsa.go", "pkg/apk/apk/implementation.go", "pkg/apk/apk/repo.go")
     rule = ("names stage: signatureFileRegex.FindStringSubmatch on hand-picked and generated entry names vs the model's splitter; "
             "parse stage: a corpus of hand-picked archives (every rejection reason, every opt-out combination, DSA/RSA512 names carrying valid RSA signatures, "
             "key names with '/', key files that are not PKIX RSA keys (PKCS#1, ECDSA, several PEM blocks), extra entries in the signature member, several signatures of which a later one verifies, "
@@ -25,6 +25,9 @@ class P(vlib.Prop):
         dict(name="sweep", cmd="c04", args=lambda t, s: ["-stage", "sweep"]),
         dict(name="repos", cmd="c04", args=lambda t, s: ["-stage", "repos"]),
         dict(name="vctx", cmd="c04", args=lambda t, s: ["-stage", "vctx"]),
+        dict(name="wiring", cmd="c04", args=lambda t, s: ["-stage", "wiring"]),
+        dict(name="files", cmd="c04", args=lambda t, s: ["-stage", "files"]),
+        dict(name="interleave", cmd="c04", args=lambda t, s: ["-stage", "interleave"]),
     )
     assumptions = (
         "SHA-1/SHA-256, RSAVerifyDigest (PEM/PKIX decoding + RSA PKCS1v15), the gzip and tar readers and the APKINDEX text parser are Section variables; the structural theorems speak about the verify oracle's answer on the digest of exactly what is parsed",
